@@ -49,8 +49,11 @@ struct DBusPreallocatedSend { int conn; };
 #endif
 
 /* ---- environment ---- */
-static struct DBusConnection cn[NC] = { { 0, 0, 1, 1 }, { 1, 0, 1, 1 }, { 2, 0, 1, 1 } };
-static BusConnectionData cd[NC];
+/* separate named objects + pointer tables (R4): arrays of structs with a symbolic index are a cost cliff */
+static struct DBusConnection cn0 = { 0, 0, 1, 1 }, cn1 = { 1, 0, 1, 1 }, cn2 = { 2, 0, 1, 1 };
+static struct DBusConnection *cnp[NC] = { &cn0, &cn1, &cn2 };
+static BusConnectionData cd0, cd1, cd2;
+static BusConnectionData *cdp[NC] = { &cd0, &cd1, &cd2 };
 static BusConnections conns;
 static struct DBusTimeout tmo;
 static int cfg_max_replies, policy_allows_driver_msg;
@@ -93,6 +96,11 @@ void dbus_connection_send_preallocated (DBusConnection *c, DBusPreallocatedSend 
   sent[n_sent].conn = c->id; sent[n_sent].m = m; n_sent++;
   free (p); vf_live_blocks--;
 }
+/* monitors: present or not (symbolic); their matchmaker selects nobody (capture itself is not the subject here) */
+static DBusList vf_monitor_node;
+dbus_bool_t bus_matchmaker_get_recipients (BusMatchmaker *mm, BusConnections *cs, DBusConnection *s, DBusConnection *a, DBusMessage *m, DBusList **out) { return TRUE; }
+static dbus_uint32_t vf_next_serial = 1000;
+dbus_uint32_t _dbus_connection_get_next_client_serial (DBusConnection *c) { return vf_next_serial++; }
 dbus_bool_t bus_containers_connection_is_contained (DBusConnection *c, const char **path, const char **type, const char **name) { return FALSE; }
 
 /* ---- reference: set of (caller, callee, serial) triples ---- */
@@ -105,7 +113,7 @@ void harness (void)
   BusTransaction *tr; DBusError err; int i, j, commit = vf_bool ();
   int n_before, n_after = 0;
 
-  for (i = 0; i < NC; i++) { cn[i].data = &cd[i]; cd[i].connection = &cn[i]; cd[i].connections = &conns; cd[i].name = cname[i]; }
+  for (i = 0; i < NC; i++) { cnp[i]->data = cdp[i]; cdp[i]->connection = cnp[i]; cdp[i]->connections = &conns; cdp[i]->name = cname[i]; }
   conns.refcount = 1; conns.context = (BusContext *) &conns; conns.pending_replies = &elist;
   elist.timeout = &tmo; elist.expire_after = vf_int (); tmo.enabled = vf_bool ();
   for (i = 0; i < P; i++)
@@ -115,7 +123,7 @@ void harness (void)
       for (j = 0; j < i; j++) VF_ASSUME (!(t[j].get == t[i].get && t[j].send == t[i].send && t[j].serial == t[i].serial));   /* invariant: no duplicate slot */
       pr[i] = calloc (1, sizeof (BusPendingReply)); ln[i] = calloc (1, sizeof (DBusList));
       VF_ASSUME (pr[i] && ln[i]);
-      pr[i]->will_get_reply = &cn[t[i].get]; pr[i]->will_send_reply = t[i].send < 0 ? 0 : &cn[t[i].send]; pr[i]->reply_serial = t[i].serial;
+      pr[i]->will_get_reply = cnp[t[i].get]; pr[i]->will_send_reply = t[i].send < 0 ? 0 : cnp[t[i].send]; pr[i]->reply_serial = t[i].serial;
       pr[i]->expire_item.added_tv_sec = vf_long (); pr[i]->expire_item.added_tv_usec = vf_long ();
       ln[i]->data = pr[i];
     }
@@ -123,6 +131,8 @@ void harness (void)
   elist.items = P ? ln[0] : 0;
   n_before = P;
   vf_msg_symbolic (&msg, ms);
+  VF_ASSUME (msg.serial != 0);                 /* every received message has a non-zero serial (C01) */
+  if (vf_bool ()) { vf_monitor_node.next = vf_monitor_node.prev = &vf_monitor_node; vf_monitor_node.data = cnp[2]; conns.monitors = &vf_monitor_node; conns.monitor_matchmaker = (BusMatchmaker *) &conns; }
   dbus_error_init (&err);
   cfg_max_replies = vf_range (1, 0x7fffffff);
   policy_allows_driver_msg = vf_bool ();
@@ -132,7 +142,7 @@ void harness (void)
     int a = vf_range (0, NC - 1), b = vf_range (0, NC - 1), count = 0, dup = 0; dbus_bool_t ok;
     VF_ASSUME (a != b);
     tr = bus_transaction_new ((BusContext *) &conns); VF_ASSUME (tr != 0);
-    ok = bus_connections_expect_reply (&conns, tr, &cn[a], &cn[b], &msg, &err);
+    ok = bus_connections_expect_reply (&conns, tr, cnp[a], cnp[b], &msg, &err);
     for (i = 0; i < P; i++) { if (t[i].get == a) count++; if (t[i].get == a && t[i].send == b && t[i].serial == msg.serial) dup = 1; }
     if (msg.no_reply)
       { VF_ASSERT (ok && _dbus_list_get_length (&elist.items) == P, "a call flagged no-reply opens no reply slot"); VF_WITNESS ("no-reply call"); }
@@ -146,7 +156,7 @@ void harness (void)
         VF_ASSERT (ok && !err.name, "expect_reply succeeds below the limit");
         VF_ASSERT (_dbus_list_get_length (&elist.items) == P + 1, "exactly one slot is opened");
         np = _dbus_list_get_first (&elist.items);
-        VF_ASSERT (np->will_get_reply == &cn[a] && np->will_send_reply == &cn[b] && np->reply_serial == msg.serial, "the slot records caller, callee and the call's serial");
+        VF_ASSERT (np->will_get_reply == cnp[a] && np->will_send_reply == cnp[b] && np->reply_serial == msg.serial, "the slot records caller, callee and the call's serial");
         VF_ASSERT (tmo.enabled, "the expiry timer is armed");
         if (commit) { bus_transaction_execute_and_free (tr); VF_ASSERT (_dbus_list_get_length (&elist.items) == P + 1, "slot stays after commit"); VF_WITNESS ("slot opened and committed"); }
         else { bus_transaction_cancel_and_free (tr); VF_ASSERT (_dbus_list_get_length (&elist.items) == P, "cancelling the transaction closes the slot again"); VF_WITNESS ("slot opened and cancelled"); }
@@ -160,7 +170,7 @@ void harness (void)
     int x = vf_range (0, NC - 1), y = vf_range (0, NC - 1), hit = -1; dbus_bool_t ok;
     VF_ASSUME (x != y);
     tr = bus_transaction_new ((BusContext *) &conns); VF_ASSUME (tr != 0);
-    ok = bus_connections_check_reply (&conns, tr, &cn[x], &cn[y], &msg, &err);
+    ok = bus_connections_check_reply (&conns, tr, cnp[x], cnp[y], &msg, &err);
     for (i = 0; i < P; i++) if (t[i].get == y && t[i].send == x && t[i].serial == msg.reply_serial) hit = i;
     VF_ASSERT ((ok != 0) == (hit >= 0), "a reply is a requested reply exactly when the receiver has an open slot for this sender and serial");
     VF_ASSERT (!err.name, "no error when memory is available");
@@ -189,7 +199,7 @@ void harness (void)
 #elif OP == 2
   {
     int c = vf_range (0, NC - 1), kept = 0;
-    bus_connection_drop_pending_replies (&conns, &cn[c]);
+    bus_connection_drop_pending_replies (&conns, cnp[c]);
     for (i = 0; i < P; i++)
       {
         int in = bus_expire_list_contains_item (&elist, &pr[i]->expire_item);
@@ -202,12 +212,31 @@ void harness (void)
               VF_ASSERT (pr[i]->will_send_reply == 0 && pr[i]->expire_item.added_tv_sec == 0 && pr[i]->expire_item.added_tv_usec == 0 && tmo.enabled && tmo.interval == 0,
                          "slots whose callee vanished are marked for immediate expiry (NoReply to the caller)");
             else
-              VF_ASSERT (pr[i]->will_send_reply == (t[i].send < 0 ? 0 : &cn[t[i].send]), "unrelated slots are unchanged");
+              VF_ASSERT (pr[i]->will_send_reply == (t[i].send < 0 ? 0 : cnp[t[i].send]), "unrelated slots are unchanged");
           }
       }
     VF_ASSERT (_dbus_list_get_length (&elist.items) == kept, "nothing else in the list");
     VF_ASSERT (n_sent == 0, "disconnect itself sends nothing");
     VF_WITNESS ("disconnect processed");
+  }
+#elif OP == 4
+  {
+    /* C05 (error replies) / C03.d: bus_transaction_send_error_reply through the real send path */
+    DBusError e; dbus_bool_t ok; int dst = vf_range (0, NC - 1);
+    e.name = DBUS_ERROR_NAME_HAS_NO_OWNER; e.message = "x";
+    msg.sender = cname[dst];
+    tr = bus_transaction_new ((BusContext *) &conns); VF_ASSUME (tr != 0);
+    ok = bus_transaction_send_error_reply (tr, cnp[dst], &e, &msg);
+    VF_ASSERT (ok, "queuing the error reply succeeds when memory is available");
+    bus_transaction_execute_and_free (tr);
+    if (policy_allows_driver_msg)
+      {
+        VF_ASSERT (n_sent == 1 && sent[0].conn == dst, "exactly one error reply goes out, to the sender of the failed message");
+        VF_ASSERT (sent[0].m->type == DBUS_MESSAGE_TYPE_ERROR && sent[0].m->error_name == e.name && sent[0].m->reply_serial == msg.serial, "it is the error, carrying the call's serial");
+        VF_ASSERT (sent[0].m->sender && strcmp (sent[0].m->sender, DBUS_SERVICE_DBUS) == 0, "bus-originated messages carry org.freedesktop.DBus as sender");
+        VF_WITNESS ("error reply delivered");
+      }
+    else VF_ASSERT (n_sent == 0, "a policy-refused driver message is dropped");
   }
 #else
   {
@@ -233,6 +262,6 @@ void harness (void)
 #endif
   }
 #endif
-  for (i = 0; i < NC; i++) VF_ASSERT (cd[i].transaction_messages == 0, "no staged message is left behind on any connection");
+  for (i = 0; i < NC; i++) VF_ASSERT (cdp[i]->transaction_messages == 0, "no staged message is left behind on any connection");
   VF_WITNESS ("end of harness reached");
 }
